@@ -24,8 +24,18 @@ PROPS = {
         "trusted_base": TB_COMMON + ["messages are identified by small integers (injective map to the strings the harness prints); fmt.Sprintf and log.Print trusted; "
                                      "the captured line must equal the message byte for byte (observation code 2 otherwise)"],
     },
-    "PROCM": {
-        "harness": "PROCFAULT", "corr": "corr.ProcModelOnly", "n": {"quick": 300, "thorough": 3000},
-        "theorems": "props/C19.v", "rule": "dev only", "trusted_base": TB_COMMON, "shard": 25,
-    },
+    "C01": {"stages": [{"harness": "PROC", "corr": "corr.C01", "n": {"quick": 300, "thorough": 4000}, "shard": 25}],
+            "theorems": "props/C19.v", "rule": "x", "trusted_base": TB_COMMON},
+    "C02": {"stages": [{"harness": "PROC", "corr": "corr.C02", "n": {"quick": 300, "thorough": 4000}, "shard": 25}],
+            "theorems": "props/C19.v", "rule": "x", "trusted_base": TB_COMMON},
+    "C03": {"stages": [{"harness": "PROC", "corr": "corr.C03", "n": {"quick": 300, "thorough": 4000}, "shard": 25}],
+            "theorems": "props/C19.v", "rule": "x", "trusted_base": TB_COMMON},
+    "C04": {"stages": [{"harness": "PROC", "corr": "corr.C04", "n": {"quick": 300, "thorough": 4000}, "shard": 25}],
+            "theorems": "props/C19.v", "rule": "x", "trusted_base": TB_COMMON},
+    "C12": {"stages": [{"harness": "PROCFAULT", "corr": "corr.C12", "n": {"quick": 300, "thorough": 4000}, "shard": 25}],
+            "theorems": "props/C19.v", "rule": "x", "trusted_base": TB_COMMON},
+    "C13": {"stages": [{"harness": "PROCFAULT", "corr": "corr.C13", "n": {"quick": 300, "thorough": 4000}, "shard": 25}],
+            "theorems": "props/C19.v", "rule": "x", "trusted_base": TB_COMMON},
+    "C17": {"stages": [{"harness": "PROC", "corr": "corr.C17", "n": {"quick": 300, "thorough": 4000}, "shard": 25}],
+            "theorems": "props/C19.v", "rule": "x", "trusted_base": TB_COMMON},
 }
